@@ -146,6 +146,39 @@ def run_case(env, c, sh):
             sh.violation("pack-build-count:on-failure", "%s: pack build failed (scripted); the runner issued %d pack build invocations and the scenario exit was %r" % (what, n, rc), case)
         else:
             sh.nontrivial.add(("pack-fails", len(c["build"]["buildpacks"])))
+        # ... and that is the end of this test only: the next test of the same process builds as if nothing had happened
+        sc2 = {"builds": [scenario["builds"][0], {"config": {"builder": "b2/builder", "app_dir": "fixtures/app", "buildpacks": ["second/bp"], "env": [["AFTER", "a failed test"]], "preprocessor": None,
+                                                             "expected": "success"}, "body": [{"op": "run_shell_command", "command": "true"}]}], "catch_builds": True}
+        rc, err, log, left = env.run(sc2, {"fail_seq": 0, "exit": 1})
+        sh.evaluations += 1
+        sh.count("builds_after_a_failed_build_in_the_same_process")
+        packs = [testrun.decode(e) for e in log if e["kind"] == "pack build"]
+        if rc != 0 or len(packs) != 2 or packs[1]["builder"] != "b2/builder" or packs[1]["buildpacks"] != ["second/bp"] or sorted(packs[1]["env"]) != [("AFTER", "a failed test")]:
+            sh.violation("build-after-failed-build", "%s: the first test's pack build failed (scripted, success expected: that test panics); the second test of the same process: exit %r, pack builds %r; stderr %s"
+                         % (what, rc, [(p_["builder"], p_["buildpacks"], p_["env"]) for p_ in packs], err[-300:]), case)
+        return
+    if c["build"].get("preprocessor") and c["idx"] % 7 == 3 and not c.get("second_crate_build"):
+        # the fixture holds something that cannot be copied (a FIFO left behind by local tooling): the build either fails before pack runs, or
+        # pack is given the complete app - never a copy that silently stops at the entry
+        fifo = os.path.join(app_abs, "a-pipe")
+        os.mkfifo(fifo)
+        try:
+            rc, err, log, left = env.run(scenario)
+        finally:
+            os.unlink(fifo)
+        sh.evaluations += 1
+        sh.count("fixtures_with_an_uncopyable_entry")
+        want = apply_pre(before, c["build"]["preprocessor"])
+        for e in log:
+            if e["kind"] == "pack build":
+                missing = sorted(set(map(tuple, want)) - set(map(tuple, e.get("path_digest", []))))
+                if missing:
+                    sh.violation("path:partial-copy", "%s: the fixture contains a FIFO; pack build ran (scenario exit %r) on a copy of the app that lacks %r" % (what, rc, [m[0] for m in missing][:6]), case)
+                    return
+        if rc == 0 and not any(e["kind"] == "pack build" for e in log):
+            sh.violation("pack-build-count", "%s: exit 0 without a pack build" % what, case)
+            return
+        sh.nontrivial.add(("uncopyable-entry", "refused" if rc != 0 else "copied"))
         return
     # (a third of the runs that use a preprocessor: the system's temporary directory is an ancestor of the fixture)
     above = bool(c["build"].get("preprocessor")) and zlib.crc32(repr(sorted(c["build"]["env"])).encode() + b"%d" % len(scenario["builds"])) % 3 == 0
